@@ -2,9 +2,10 @@
 // call, logged at its return, with opaque identities for messages, contexts, draws, signatures
 // and serialisations (the bytes in hex when short, else length + SHAKE256 digest).
 use crate::api::*;
-use crate::fcases::{format_msg, msg_of, shake256};
+use crate::msgfmt::{bit_length, format_msg, msg_of, prehash, shake256};
 use crate::for_set;
 use crate::util::*;
+#[cfg(feature = "hooks")]
 use fips204::verif_hooks as vh;
 use serde_json::{json, Value};
 use std::collections::HashMap;
@@ -202,6 +203,7 @@ pub fn honest<S: MlDsa>(seed: u64, nseeds: usize, nmsgs: usize, out: &mut Out) {
     let _ = w.verify(hp_b, b"cross", b"", "pure", &sig);
 }
 
+#[cfg(feature = "hooks")]
 /// C01 rare-event hunt: sign many messages natively with the attempt hook, classify each signature (many attempts,
 /// hint weight 0 / omega, first or some hint polynomial empty, response norm one below the bound) and put a few of
 /// every class through the recorded API (sign again with the same draw, verify under every key provenance).
@@ -253,8 +255,60 @@ pub fn honest_hunt<S: MlDsa>(seed: u64, n: usize, out: &mut Out) {
     w.out.ev(json!({"ev": "Note", "what": format!("honest hunt: {} signatures classified, {} replayed through the recorded API", n, done.len())}));
 }
 
+/// hint-section malformations of Algorithm 21 applied to the last omega+k bytes of a signature (byte surgery only)
+pub fn hint_mutants_api<S: MlDsa>(sig: &[u8], p: &mut Prng) -> Vec<(String, Vec<u8>)> {
+    let om = S::OMEGA as usize;
+    let hs = S::SIG_LEN - om - S::K;
+    let y = &sig[hs..];
+    let cnt = |i: usize| y[om + i] as usize;
+    let total = cnt(S::K - 1);
+    let mut v: Vec<(String, Vec<u8>)> = vec![];
+    let mut mk = |name: &str, f: &dyn Fn(&mut [u8])| { let mut s = sig.to_vec(); f(&mut s[hs..]); if s != sig { v.push((name.to_string(), s)); } };
+    for i in [0, S::K / 2, S::K - 1] {
+        mk(&format!("count[{}] = omega+1", i), &|y| y[om + i] = om as u8 + 1);
+        mk(&format!("count[{}] = 255", i), &|y| y[om + i] = 255);
+        if i > 0 && cnt(i - 1) > 0 { mk(&format!("count[{}] below previous", i), &|y| y[om + i] = y[om + i - 1] - 1); }
+    }
+    for i in 0..S::K {
+        let lo = if i == 0 { 0 } else { cnt(i - 1) };
+        if cnt(i) >= lo + 2 {
+            mk(&format!("equal adjacent indices in poly {}", i), &|y| y[lo + 1] = y[lo]);
+            mk(&format!("descending indices in poly {}", i), &|y| y.swap(lo, lo + 1));
+        }
+        if i > 0 && cnt(i) == cnt(i - 1) && cnt(i) > 0 { mk(&format!("count of empty poly {} lowered", i), &|y| y[om + i] -= 1); }
+    }
+    if total < om {
+        for k in total..om { mk(&format!("non-zero unused slot {}", k), &|y| y[k] = 1 + (k as u8 % 200)); }
+        let r = total + p.below((om - total) as u64) as usize;
+        mk("non-zero random unused slot", &|y| y[r] = 0x80);
+        if total > 0 { mk("last count raised over padding", &|y| y[om + S::K - 1] += 1); }
+    }
+    mk("strictly increasing run through positions and counts", &|y| { for i in 0..om { y[i] = i as u8; } for i in 0..S::K { y[om + i] = (200 + i) as u8; } });
+    v
+}
+
+/// C02 / C08 through the public API only (works without the hooks feature): every malformed, truncated-looking or
+/// random signature must be rejected (the ideal functionality accepts issued strings only), the honest ones accepted
+pub fn malformed<S: MlDsa>(seed: u64, nbase: usize, out: &mut Out) {
+    let mut p = Prng::new(seed, 0x0280 + S::SET as u64);
+    let mut w = World::<S>::new(out);
+    let (hp, hs) = w.keygen_seed(&p.arr32());
+    for b in 0..nbase {
+        let mode = MODES[b % 4];
+        let m = msg_of(&mut p, b as u64);
+        let ctx = p.bytes([0usize, 9, 255][b % 3]);
+        let sig = w.sign(hs, &m, &ctx, mode, &p.arr32(), Fault::None).unwrap_or_default();
+        let _ = w.verify(hp, &m, &ctx, mode, &sig);
+        for (_name, s2) in hint_mutants_api::<S>(&sig, &mut p) { let _ = w.verify(hp, &m, &ctx, mode, &s2); }
+        // every byte of the commitment hash, a sample of the response section, all-00 / all-FF / random strings
+        for pos in 0..S::LAMBDA / 4 { let mut s2 = sig.clone(); s2[pos] ^= 1 << (pos % 8); let _ = w.verify(hp, &m, &ctx, mode, &s2); }
+        for _ in 0..16 { let mut s2 = sig.clone(); let k = S::LAMBDA / 4 + p.below((S::SIG_LEN - S::LAMBDA / 4) as u64) as usize; s2[k] ^= 1 << p.below(8); let _ = w.verify(hp, &m, &ctx, mode, &s2); }
+        for s2 in [vec![0u8; S::SIG_LEN], vec![0xffu8; S::SIG_LEN], p.bytes(S::SIG_LEN)] { let _ = w.verify(hp, &m, &ctx, mode, &s2); }
+    }
+}
+
 /// C05: every single-bit flip of sig, pk, message and context
-pub fn flips<S: MlDsa>(seed: u64, ntuples: usize, out: &mut Out) {
+pub fn flips<S: MlDsa>(seed: u64, ntuples: usize, only: &str, out: &mut Out) {
     let mut p = Prng::new(seed, 0x0500 + S::SET as u64);
     let mut w = World::<S>::new(out);
     for t in 0..ntuples {
@@ -269,12 +323,16 @@ pub fn flips<S: MlDsa>(seed: u64, ntuples: usize, out: &mut Out) {
         let m = p.bytes([137usize, 8, 1, 200][t % 4]);
         let ctx = p.bytes([255usize, 3, 0, 16][t % 4]);
         let sig = w.sign(hs, &m, &ctx, mode, &p.arr32(), Fault::None).unwrap_or_default();
-        for field in ["sig", "pk", "msg", "ctx"] { w.flip_sweep(hp, &m, &ctx, mode, &sig, field); }
+        for field in ["sig", "pk", "msg", "ctx"] { if only.is_empty() || only == field { w.flip_sweep(hp, &m, &ctx, mode, &sig, field); } }
+        if !only.is_empty() { continue; }
         // message and context flips are cheap: do them in every other mode as well (each pre-hash function binds the whole message)
+        let other_kind = if mode == "pure" { MODES[1 + t % 3] } else { "pure" };
         for m2 in MODES {
             if m2 == mode { continue; }
             let s2 = w.sign(hs, &m, &ctx, m2, &p.arr32(), Fault::None).unwrap_or_default();
             for field in ["msg", "ctx"] { w.flip_sweep(hp, &m, &ctx, m2, &s2, field); }
+            // the public key is bound through tr = H(pk) in BOTH kinds of mode: flip every pk bit in one mode of the other kind too
+            if m2 == other_kind { w.flip_sweep(hp, &m, &ctx, m2, &s2, "pk"); }
         }
     }
 }
@@ -312,8 +370,7 @@ pub fn binding<S: MlDsa>(seed: u64, nbase: usize, out: &mut Out) {
         for m2 in MODES { if m2 != mode { let _ = w.verify(hp, &m, &ctx, m2, &sig); } }
         // crafted messages that mimic the other mode's formatted input
         for ph in ["SHA256", "SHA512", "SHAKE128"] {
-            let (oid, d, n) = vh::hash_message(&m, &ph_of(ph).unwrap());
-            let mimic: Vec<u8> = [&oid[..], &d[..n]].concat();
+            let mimic: Vec<u8> = prehash(ph, &m);
             if mode == "pure" {
                 // signed pure on M; also sign pure on OID||PH(M) and try it as a pre-hash signature of M
                 let s2 = w.sign(hs, &mimic, &ctx, "pure", &p.arr32(), Fault::None).unwrap_or_default();
@@ -467,7 +524,7 @@ pub fn roundtrip<S: MlDsa>(seed: u64, nrandom: usize, out: &mut Out) {
     {
         let (_hp, hs) = w.keygen_seed(&p.arr32());
         let base = w.ser(hs);
-        let t0_start = 128 + (S::L + S::K) * 32 * fips204::verif_hooks::bit_length(2 * S::ETA);
+        let t0_start = 128 + (S::L + S::K) * 32 * bit_length(2 * S::ETA);
         let mut variants: Vec<Vec<u8>> = vec![];
         for (lo, hi) in [(0usize, 32usize), (32, 64), (64, 128), (t0_start, S::SK_LEN)] {
             let mut b = base.clone(); let k = lo + p.below((hi - lo) as u64) as usize; b[k] ^= 1 << p.below(8); variants.push(b);
@@ -476,7 +533,7 @@ pub fn roundtrip<S: MlDsa>(seed: u64, nrandom: usize, out: &mut Out) {
         }
         // strings with ONE out-of-range s1 / s2 field: they must be refused; if a decoder accepts one (and, say,
         // zeroes the polynomial) the re-serialisation rule below exposes it
-        let c = fips204::verif_hooks::bit_length(2 * S::ETA);
+        let c = bit_length(2 * S::ETA);
         for idx in [0usize, 255, S::L * 256, (S::L + S::K) * 256 - 1, (S::L + S::K - 1) * 256 + 17] {
             let mut b = base.clone();
             let bit = 128 * 8 + idx * c;
@@ -585,8 +642,10 @@ pub fn run(a: &Args) {
         let mut out = Out::create(&format!("{}/api_{}_{}.ndjson", a.s("out", "/verif/work/api"), sc, set));
         match sc.as_str() {
             "honest" => { let (ns, nm) = (a.u("nseeds", 2) as usize, a.u("nmsgs", 6) as usize); for_set!(set, honest(seed, ns, nm, &mut out)) }
+            #[cfg(feature = "hooks")]
             "hunt" => { let n = a.u("n", 3000) as usize; for_set!(set, honest_hunt(seed, n, &mut out)) }
-            "flips" => { let n = a.u("ntuples", 1) as usize; for_set!(set, flips(seed, n, &mut out)) }
+            "malformed" => { let n = a.u("nbase", 4) as usize; for_set!(set, malformed(seed, n, &mut out)) }
+            "flips" => { let n = a.u("ntuples", 1) as usize; let only = a.s("fields", ""); for_set!(set, flips(seed, n, &only, &mut out)) }
             "binding" => { let n = a.u("nbase", 6) as usize; for_set!(set, binding(seed, n, &mut out)) }
             "ctxlimit" => {
                 let n = a.u("maxlen", 1024) as usize;
